@@ -939,6 +939,8 @@ class Frame:
         if isinstance(sl, ast.Slice):
             lo, hi, st = self.e_Slice(sl)
             lo, hi, st = (self.I.ctx.resolve(x) for x in (lo, hi, st))
+            if isinstance(obj, SStr):
+                return slice(lo, hi, st)
             if isinstance(obj, (SBuf, SZeros, SMBuf)):
                 if st is not None:
                     raise Unsupported("slice step on symbolic-length buffer")
@@ -1000,6 +1002,14 @@ class Frame:
             return 0
         if isinstance(obj, SOpaque):
             return SOpaque("item-of:" + obj.tag, obj, idx)
+        if isinstance(obj, SStr):
+            if isinstance(idx, slice) and idx.step is None and (idx.start is None or (isinstance(idx.start, int) and idx.start >= 0)) \
+                    and (idx.stop is None or (isinstance(idx.stop, int) and idx.stop >= 0)):
+                lo = idx.start or 0
+                if idx.stop is None:
+                    return SStr(z3.SubString(obj.e, lo, z3.Length(obj.e)))
+                return SStr(z3.SubString(obj.e, lo, max(idx.stop - lo, 0)))
+            raise Unsupported("this subscript of a symbolic string")
         if isinstance(idx, (SInt, SBool)):
             return self.sym_lookup(obj, idx)
         if isinstance(idx, SStr):
